@@ -1,8 +1,10 @@
 (** C03 — pinned statements (M-ROUTER).  Only [Theorem .. exact ..].
     [RInv], [cfg_ok], [op_wf], [ops_wf] are defined in Router/Inv.v and Router/NoPanic.v;
     [run] is Router/RunDefs.v.  [op_wf] only says that SUBSCRIBE filters carry a QoS <= 2
-    (the Rust field is the enum [QoS]); [cfg_ok] = segment size >= 1024 and count >= 1. *)
-From Rumqtt Require Import Router.Inv Router.NoPanic Router.NoPanicServe.
+    (the Rust field is the enum [QoS]); [cfg_ok] = segment size >= 1024 and count >= 1.
+    [RInvD st] = [RInv st /\ DevI st] (Router/NoPanicDev.v): additionally the data requests of
+    each connection carry pairwise different filters, all inside its subscription set. *)
+From Rumqtt Require Import Router.Inv Router.NoPanic Router.NoPanicServe Router.NoPanicDevInv Router.NoPanicDev3 Router.NoPanicDev.
 From Rumqtt Require Import Router.Model Router.RunDefs.
 
 Theorem c03_init_total : forall cfg, cfg_ok cfg -> exists st0, init cfg = Ok st0.
@@ -21,7 +23,7 @@ Proof. exact rinv_reachable. Qed.
 
 Theorem c03_panic_profile : forall st orc o t,
   RInv st -> op_wf o -> step_with st orc o = Panic t ->
-  t = P_ADD \/ (cf_debug_assertions (r_cfg st) = true /\ (t = P_DBG_READY \/ t = P_DBG_DUP)).
+  t = P_ADD \/ (cf_debug_assertions (r_cfg st) = true /\ t = P_DBG_DUP).
 Proof. exact rinv_panic. Qed.
 
 Theorem c03_no_panic_release : forall st orc o t,
@@ -54,3 +56,27 @@ Theorem c03_rinv_nonvacuous :
     (exists d, slab_get (dl_native (r_datalog st)) 0 = Some d /\ lenN (d_waiters d) = 1 /\
                lenN (concat (map (@s_data pubdata) (segs (d_log d)))) = 1).
 Proof. exact rinv_nonvacuous. Qed.
+
+Theorem c03_rinvd_init : forall cfg st0, cfg_ok cfg -> init cfg = Ok st0 -> RInvD st0.
+Proof. exact rinvd_init. Qed.
+
+Theorem c03_rinvd_step : forall st orc o st' out,
+  RInvD st -> op_wf o -> step_with st orc o = Ok (st', out) -> RInvD st'.
+Proof. exact rinvd_step. Qed.
+
+Theorem c03_rinvd_reachable : forall cfg st0 ops st,
+  cfg_ok cfg -> init cfg = Ok st0 -> ops_wf ops -> run st0 ops = Ok st -> RInvD st.
+Proof. exact rinvd_reachable. Qed.
+
+Theorem c03_no_panic_dev : forall st orc o t,
+  RInvD st -> op_wf o -> step_with st orc o = Panic t -> t = P_ADD.
+Proof. exact no_panic_any. Qed.
+
+Theorem c03_no_panic : forall cfg st0 ops t,
+  cfg_ok cfg -> init cfg = Ok st0 -> ops_wf ops -> run st0 ops = Panic t -> t = P_ADD.
+Proof. exact no_panic_from_init. Qed.
+
+Theorem c03_rinvd_nonvacuous :
+  exists st0 st, init ex_cfg = Ok st0 /\ run st0 ex_ops = Ok st /\ RInvD st /\
+                 cf_debug_assertions (r_cfg st) = true /\ slab_len (r_conns st) = 1.
+Proof. exact rinvd_nonvacuous. Qed.
